@@ -506,6 +506,34 @@ class Eval:
                 m = self.ev(elt[1])
                 if isinstance(ps, PS) and isinstance(m, M) and "*" in m.d:
                     return LISTOF(ps, m.d["*"][0], m.d["*"][1])
+        # {t for t in NODES if cond(t)}: a filtered node set.  The loop variable may occur only as a matrix index (A[x, t],
+        # A[t, x]): the condition, with t replaced by ':', is a vector over the generic node
+        if len(gens) == 1 and gens[0][2] and elt == ("elem", gens[0][1]) and kind in ("gen", "set", "list"):
+            it = gens[0][1]
+            base = self.ev(it)
+            if isinstance(base, I):
+                el = ("elem", it)
+
+                def subst(u, inside_index=False):
+                    if u == el:
+                        if not inside_index:
+                            raise Inconclusive("PW: the loop variable of a filtered node set is used as a value")
+                        return FULL
+                    if not isinstance(u, tuple):
+                        return u
+                    if u and u[0] == "sub" and len(u) == 3 and isinstance(u[2], tuple) and u[2][:1] == ("tuple",):
+                        return ("sub", subst(u[1], False), ("tuple", tuple(subst(x, True) for x in u[2][1])))
+                    return tuple(subst(x, False) for x in u)
+                b = base.b
+                for c in gens[0][2]:
+                    v = self.ev(subst(c))
+                    if isinstance(v, V):
+                        b = band(b, v.e)
+                    elif isinstance(v, bool):
+                        b = band(b, v)
+                    else:
+                        raise Inconclusive("PW: filter of a node-set comprehension is not an entrywise condition")
+                return I(b)
         raise Inconclusive("PW: comprehension %s" % fmt(t)[:80])
 
 
@@ -752,10 +780,18 @@ def rule_decompositions(prog, rep, rule="PW.table"):
     # edge lists
     q = "sempler.utils.directed_edges"
     try:
-        f, rows = matrix_table(prog, q, "A")
+        try:
+            f, rows = matrix_table(prog, q, "A")
+        except Inconclusive as e0:
+            if "atom g" not in str(e0.why):
+                raise
+            f, rows = matrix_table(prog, q, "A", atoms=("g",))       # built from a list that depends on i > j: both cases
         bad = []
-        for (pair,), r in rows.items():
-            if not isinstance(r, PS) or r.ij is not (A_(pair[0]) and not A_(pair[1])) or r.ji is not (A_(pair[1]) and not A_(pair[0])):
+        for key_, r in rows.items():
+            pair = key_[0]
+            def tb(x):
+                return x if isinstance(x, bool) or x is None else (signs.nonzero(x) if isinstance(x, str) else nzb(x))
+            if not isinstance(r, PS) or tb(r.ij) is not (A_(pair[0]) and not A_(pair[1])) or tb(r.ji) is not (A_(pair[1]) and not A_(pair[0])):
                 bad.append((pair, show(r)))
         if bad:
             rep.bad(rule, where_of(f), "directed_edges membership wrong for pair %s: %s" % bad[0])
